@@ -240,8 +240,10 @@ Definition inner_oval (cr sr W H : Q) : box :=
   (tx, ty, W - 2 * (tx - 0), H - 2 * (ty - 0)).
 
 Definition rho : Q := 1 # 100000.   (* relative accuracy demanded of the trigonometric oracle *)
-Definition H_unit_b (c s : Q) : bool :=
-  Qle_bool 0 c && Qle_bool c 1 && Qle_bool 0 s && Qle_bool s 1.
+(* float32(atan2(h, 0)) is slightly ABOVE pi/2, so the real cos can be about -4e-8: what the theorem needs is
+   only that the padded content stays above -1/2 *)
+Definition H_pad_b (c s w h px py : Q) : bool :=
+  Qle_bool (- (1#2)) (w + px * c) && Qle_bool (- (1#2)) (h + py * s).
 (* exact trigonometry gives cr = rx / sqrt 2 and sr = ry / sqrt 2 *)
 Definition H_radius_b (cr sr W H : Q) : bool :=
   Qle_bool (W / 2 * (1 - rho)) (sqrt2f * cr) && Qle_bool cr (W / 2)
